@@ -58,6 +58,7 @@ fn dispatch(mode: &str, line: &str) -> String {
         "tscd" => pure::tscd(line),
         "tscs" => pure::tscs(line),
         "osd" => pure::osd(line),
+        "durl" => pure::durl(line),
         "oss" => pure::oss(line),
         "dur" => pure::dur(line),
         "prec" => pure::prec(line),
